@@ -14,6 +14,8 @@ import ChibiVerif.Model.Text
 import ChibiVerif.Lemmas.LiteralsLemmas
 import ChibiVerif.Lemmas.TextLemmas
 import ChibiVerif.Lemmas.LiteralsReaderLemmas
+import ChibiVerif.Lemmas.C11Splice
+import ChibiVerif.Lemmas.C11Locality
 
 set_option linter.unusedSimpArgs false
 
@@ -24,6 +26,8 @@ open ChibiVerif.Literals
 open ChibiVerif.Lemmas.Literals
 open ChibiVerif.Lemmas.Text
 open ChibiVerif.Lemmas.Readers
+open ChibiVerif.Lemmas.Splice
+open ChibiVerif.Lemmas.Locality
 open ChibiVerif.Text
 
 -- ------------------------------------------------------------------ integer constants (6.4.4.1)
@@ -446,14 +450,87 @@ theorem C11_text_ucn (pre post : List Byte) (d0 d1 d2 d3 d4 d5 d6 d7 : Byte) (hp
 example : isXDigit 0x30#8 = true ∧ isXDigit 0x65#8 = true ∧ isXDigit 0x39#8 = true ∧
     digitsValue 16 [hexVal 0x30#8, hexVal 0x30#8, hexVal 0x65#8, hexVal 0x39#8] = 0xE9 := by decide
 
--- ------------------------------------------------------------------ open
+-- ------------------------------------------------------------------ source text: composition with the tokenizer
 
-/-- OPEN (not proved): the composition of the phase theorems with the tokenizer — a backslash-newline anywhere in a text
-    does not change the literal token that `tokenize()` reads at the start of the text.  The components are proved above
-    (`C11_text_newlines`, `C11_text_splice`, `C11_text_ucn`, `C11_strings`, `C11_int_value`, `C11_char_const`); the
-    composition is only exercised by the correspondence run (text_phases, e2e_text). -/
-def C11_text_transparent_Statement : Prop :=
-  ∀ (a b : List Byte), BSL ∉ a → CR ∉ a → CR ∉ b → 0#8 ∉ a → 0#8 ∉ b →
-    lexLiteral (phase12 (a ++ BSL :: LF :: b)) = lexLiteral (phase12 (a ++ b))
+/-- **C11 (what `tokenize()` sees depends only on the unspliced text).**  For every file content `s`: the lines of the text
+    handed to `tokenize()` are — the first line exactly, the later ones up to blank lines — the logical lines of the phase-1
+    text (final newline, BOM skipped, CR/CRLF canonicalised) *with every backslash-newline deleted* (`unsplice`, the wording of
+    5.1.1.2p1(2)), each with its universal character names converted; the blank lines are the bookkeeping of
+    `remove_backslash_newline`, which re-inserts every deleted newline after the end of the logical line so that the number of
+    newlines (hence every later line number) is unchanged.  In particular two files with the same unspliced phase-1 text give
+    `tokenize()` the same logical lines, however many splices either contains. -/
+theorem C11_text_lines (s : List Byte) :
+    logicalLines (splitOn LF (phase12 s)) =
+      (logicalLines (splitOn LF (unsplice BSL LF (phase1 s)))).map convertUniversalChars ∧
+    firstLine (phase12 s) = convertUniversalChars (firstLine (unsplice BSL LF (phase1 s))) ∧
+    (phase12 s).count LF = (phase1 s).count LF ∧
+    (∀ s', unsplice BSL LF (phase1 s') = unsplice BSL LF (phase1 s) →
+      logicalLines (splitOn LF (phase12 s')) = logicalLines (splitOn LF (phase12 s))) :=
+  ⟨phase12_lines s, firstLine_phase12 s, phase12_count s, fun s' h => by rw [phase12_lines, phase12_lines, h]⟩
+
+/-- **C11 (the literal token is read from the first line).**  If the text `tokenize()` sees starts with a literal that is
+    complete on its first line (`LiteralOnFirstLine`: the line does not end in a backslash — `string_literal_end` steps over
+    a newline after a backslash — and `read_char_literal`'s `strchr` finds the closing quote before the newline), the token
+    is the one read from that line alone: no reader loop looks past the first newline. -/
+theorem C11_text_first_line (y w : List Byte) (hy : y = firstLine y ++ LF :: w) (hline : LiteralOnFirstLine y) :
+    lexLiteral y = lexLiteral (firstLine y ++ [LF]) := by
+  conv => lhs; rw [hy]
+  exact lexLiteral_line _ _ hline.1 hline.2
+
+/-- non-vacuity: `"ab" x`, newline, `y` -/
+example : ([0x22#8, 0x61#8, 0x62#8, 0x22#8, 0x20#8, 0x78#8, 10#8, 0x79#8] : List Byte) =
+      firstLine [0x22#8, 0x61#8, 0x62#8, 0x22#8, 0x20#8, 0x78#8, 10#8, 0x79#8] ++ LF :: [0x79#8] ∧
+    LiteralOnFirstLine [0x22#8, 0x61#8, 0x62#8, 0x22#8, 0x20#8, 0x78#8, 10#8, 0x79#8] := by decide
+
+/-- **C11 (line splicing is transparent for literals, any number of splices).**  Two file contents whose phase-1 texts are
+    equal after deleting every backslash-newline — e.g. one is the other with backslash-newlines inserted at any number of
+    places — give the same literal token at the start of the text, provided the literal is complete on the first line of
+    (either) text `tokenize()` sees. -/
+theorem C11_text_unspliced (s s' : List Byte) (h : unsplice BSL LF (phase1 s') = unsplice BSL LF (phase1 s))
+    (hline : LiteralOnFirstLine (phase12 s)) :
+    lexLiteral (phase12 s') = lexLiteral (phase12 s) := by
+  have fl : firstLine (phase12 s') = firstLine (phase12 s) := by rw [firstLine_phase12, firstLine_phase12, h]
+  obtain ⟨w1, h1⟩ := split_at_lf _ (phase12_has_lf s')
+  obtain ⟨w2, h2⟩ := split_at_lf _ (phase12_has_lf s)
+  have hline' : LiteralOnFirstLine (phase12 s') := by unfold LiteralOnFirstLine; rw [fl]; exact hline
+  rw [C11_text_first_line _ w1 h1 hline', C11_text_first_line _ w2 h2 hline, fl]
+
+/-- non-vacuity: `"a\<LF>b\<LF>c"` and `"abc"` (two splices inside a string literal) -/
+example : unsplice BSL LF (phase1 [0x22#8, 0x61#8, 92#8, 10#8, 0x62#8, 92#8, 10#8, 0x63#8, 0x22#8]) =
+      unsplice BSL LF (phase1 [0x22#8, 0x61#8, 0x62#8, 0x63#8, 0x22#8]) ∧
+    LiteralOnFirstLine (phase12 [0x22#8, 0x61#8, 0x62#8, 0x63#8, 0x22#8]) ∧
+    lexLiteral (phase12 [0x22#8, 0x61#8, 0x62#8, 0x63#8, 0x22#8]) =
+      .ok (.str ⟨.ty_char, [0x61, 0x62, 0x63], 5, [0x22#8, 0x61#8, 0x62#8, 0x63#8, 0x22#8]⟩) := by decide
+
+/-- **C11 (a backslash-newline anywhere does not change the literal token).**  A backslash-newline inserted at any place of a
+    file content `a ++ b` — inside the literal, inside a universal character name (chibicc deletes splices before it converts
+    UCNs, so this too is transparent), before it, after it — does not change the literal token `tokenize()` reads at the
+    start of the text.  Hypotheses (each is necessary, see Findings/C11.lean for the kernel-checked counterexamples, which
+    were confirmed on the real tokenizer):
+    * `a` does not end in a backslash (`\\<LF>`: the inserted newline would be spliced with the *earlier* backslash);
+    * no CR (a splice between the CR and the LF of a line end separates them: two line ends instead of one);
+    * the splice is not inside or in front of a UTF-8 BOM at the start of the file (`tokenize_file` tests for the BOM
+      before it removes splices, so such a BOM is not skipped);
+    * the literal of the unspliced text is complete on its first line (`LiteralOnFirstLine`): the deleted newline is
+      re-inserted after the first newline, which changes the extent of a character constant that `strchr` closes on a
+      later line (undefined in C11: 6.4.4.4 has no new-line in a c-char) and un-escapes a newline that follows a backslash
+      produced by `\` (a universal character name 6.4.3 disallows). -/
+theorem C11_text_transparent (a b : List Byte) (ha : a.getLast? ≠ some BSL) (hca : CR ∉ a) (hcb : CR ∉ b)
+    (hbom : 3 ≤ a.length ∨ (a ++ b).take 3 ≠ BOM) (hline : LiteralOnFirstLine (phase12 (a ++ b))) :
+    lexLiteral (phase12 (a ++ BSL :: LF :: b)) = lexLiteral (phase12 (a ++ b)) := by
+  have fl : firstLine (phase12 (a ++ BSL :: LF :: b)) = firstLine (phase12 (a ++ b)) := by
+    rw [firstLine_phase12, firstLine_phase12, firstLine_phase1_splice a b ha hca hcb hbom]
+  obtain ⟨w1, h1⟩ := split_at_lf _ (phase12_has_lf (a ++ BSL :: LF :: b))
+  obtain ⟨w2, h2⟩ := split_at_lf _ (phase12_has_lf (a ++ b))
+  have hline' : LiteralOnFirstLine (phase12 (a ++ BSL :: LF :: b)) := by unfold LiteralOnFirstLine; rw [fl]; exact hline
+  rw [C11_text_first_line _ w1 h1 hline', C11_text_first_line _ w2 h2 hline, fl]
+
+/-- non-vacuity: a splice inside the universal character name of `"é"` (a = `"\u00`, b = `e9";`), read as `"é"` -/
+example : ([0x22#8, 92#8, 0x75#8, 0x30#8, 0x30#8] : List Byte).getLast? ≠ some BSL ∧
+    CR ∉ ([0x22#8, 92#8, 0x75#8, 0x30#8, 0x30#8] : List Byte) ∧ CR ∉ ([0x65#8, 0x39#8, 0x22#8, 0x3B#8] : List Byte) ∧
+    3 ≤ ([0x22#8, 92#8, 0x75#8, 0x30#8, 0x30#8] : List Byte).length ∧
+    LiteralOnFirstLine (phase12 ([0x22#8, 92#8, 0x75#8, 0x30#8, 0x30#8] ++ [0x65#8, 0x39#8, 0x22#8, 0x3B#8])) ∧
+    lexLiteral (phase12 ([0x22#8, 92#8, 0x75#8, 0x30#8, 0x30#8] ++ BSL :: LF :: [0x65#8, 0x39#8, 0x22#8, 0x3B#8])) =
+      .ok (.str ⟨.ty_char, [0xC3, 0xA9], 4, [0x22#8, 0xC3#8, 0xA9#8, 0x22#8]⟩) := by decide
 
 end ChibiVerif.Props.C11
